@@ -112,6 +112,7 @@ def pluckOne (x : Val) (i : Nat) : Except Err Val :=
   match x with
   | .tup l => match l[i]? with | some v => .ok v | none => .error .indexError
   | .lst l => match l[i]? with | some v => .ok v | none => .error .indexError
+  | .str s => match s.toList[i]? with | some c => .ok (.str (String.singleton c)) | none => .error .indexError
   | _ => .error .typeError
 
 /-- iteration of `chain(x)` in flatten -/
@@ -175,6 +176,7 @@ def upd (k : Kind) (s : NState) (who : NodeId) (x : Val) (md : Meta) : UpdRes :=
     match (match key with | none => Except.ok Val.none | some kf => kf.eval x) with
     | .error e => raise e [.retain md]
     | .ok ky =>
+      if !ky.hashable then raise .typeError [.retain md] else     -- self._buffer[key]: dict lookup
       let items := s.items ++ [(ky, x, md)]
       let mine := items.filter (fun it => it.1 = ky)
       if mine.length = n then
@@ -187,6 +189,7 @@ def upd (k : Kind) (s : NState) (who : NodeId) (x : Val) (md : Meta) : UpdRes :=
     match key.eval x with
     | .error e => raise e [.retain md]
     | .ok ky =>
+      if !ky.hashable then raise .typeError [.retain md] else     -- dict lookup on self._buffer
       let present := s.items.find? (fun it => it.1 = ky)
       let (items, rel) :=
         if keepLast then
@@ -220,9 +223,9 @@ def upd (k : Kind) (s : NState) (who : NodeId) (x : Val) (md : Meta) : UpdRes :=
     match key.eval x with
     | .error e => raise e
     | .ok y =>
+      if hashable && !y.hashable then raise .typeError else       -- self.seen.get(y): dict / LRU lookup
       let hit := s.seen.contains y
       -- hashable mode: LRU.get refreshes on hit, insert on miss; list mode: move to front, truncate
-      let _ := hashable
       let s1 := { s with seen := lruTouch (match maxsize with | some 0 => none | m => m) s.seen y }
       if hit then { effs := [.set s1], passRet := false } else { effs := [.set s1, .emit x md] }
   | .flatten =>
